@@ -657,16 +657,15 @@ def check(case, tr):
             if gid not in named and gid not in inst_runs and gparent.get(gid) == 0:
                 inst_runs[gid] = {}
                 anon.setdefault(gstart.get(gid), []).append(gid)
-        eps_last = [ep["stop"] for lst in eps.values() for ep in lst if ep["stop"] is not None]
-        for key, lst in sorted(eps.items()):
-            for ep in lst:
-                if (key, ep["start"]) not in inst_of and not ep["ticks"] and anon.get(ep["start"]):
-                    pool = anon[ep["start"]]
-                    same_stop = [g for g in pool if gstop.get(g) == ep["stop"]] if ep["stop"] is not None else \
-                                [g for g in pool if gstop.get(g) is None or gstop.get(g) >= max(eps_last, default=0)]
-                    g = (same_stop or pool)[0]
-                    pool.remove(g)
-                    inst_of[(key, ep["start"])] = g
+        # epochs with a definite end first (an instance stopped in exactly that cycle), the open-ended ones take what is left
+        todo = sorted(((key, ep) for key, lst in eps.items() for ep in lst), key=lambda x: (x[1]["stop"] is None, x[0], x[1]["start"]))
+        for key, ep in todo:
+            if (key, ep["start"]) not in inst_of and not ep["ticks"] and anon.get(ep["start"]):
+                pool = anon[ep["start"]]
+                same_stop = [g for g in pool if gstop.get(g) == ep["stop"]] if ep["stop"] is not None else []
+                g = (same_stop or pool)[0]
+                pool.remove(g)
+                inst_of[(key, ep["start"])] = g
     n_epochs = readds = runs_cmp = out_cmp = timer_runs = phantom = two_dict = partial_leave = 0
     exp_out = {}              # key -> list of (t, v) expected output ticks over all epochs, with epoch marks
     for key, lst in eps.items():
